@@ -37,12 +37,18 @@ func (r *Runner) unTestOwnOrGrp(ctx context.Context, op syntax.UnTestOperator, x
 	if err != nil {
 		return false
 	}
+	st, ok := info.Sys().(*syscall.Stat_t)
+	if !ok {
+		// A custom stat handler may return file information
+		// which does not come from the operating system.
+		return false
+	}
 	if op == syntax.TsUsrOwn {
 		uid, _ := strconv.Atoi(u.Uid)
-		return uint32(uid) == info.Sys().(*syscall.Stat_t).Uid
+		return uint32(uid) == st.Uid
 	}
 	gid, _ := strconv.Atoi(u.Gid)
-	return uint32(gid) == info.Sys().(*syscall.Stat_t).Gid
+	return uint32(gid) == st.Gid
 }
 
 type waitStatus = syscall.WaitStatus
